@@ -372,7 +372,14 @@ def R2_passes(ctx):
     # pass 2 consumes the finishing stack LIFO: `while let Some(v) = stack.pop()` or `for v in stack.into_iter().rev()`
     turn = None   # (block where a turn's root is produced, root term)
     pops = [c for c in b.calls() if c.callee and c.callee.startswith("std::vec::Vec::<T, A>::pop") and c.bb in l2[1]]
-    if len(pops) == 1 and root_local(b, pops[0].args[0]) == st1:
+    def same_vector(op_a, bb_a, op_b, bb_b):
+        # the same root local, or (after a helper returned the vector it filled: `let mut stack = finishing_order(g)?`) the
+        # same creation site in the term domain
+        if root_local(b, op_a) == root_local(b, op_b):
+            return True
+        ta, tb_ = unmut(deep_strip(tm.operand(op_a, bb_a))), unmut(deep_strip(tm.operand(op_b, bb_b)))
+        return ta == tb_ and ta[0] == "call" and len(ta) > 3 and re.search(r"Vec::<T>::(new|with_capacity)$|^vec!$", ta[1].split("{")[0]) is not None
+    if len(pops) == 1 and (root_local(b, pops[0].args[0]) == st1 or (not is_cl(p1) and same_vector(pops[0].args[0], pops[0].bb, p1.args[3], p1.bb))):
         turn = (pops[0].bb, clean(tm.call_term(pops[0].term, pops[0].bb)))
     else:
         nx2 = [c for c in b.calls() if c.func.get("method") == "next" and c.bb in l2[1] and innermost_loop(b, c.bb) == l2]
